@@ -14,7 +14,7 @@ cleanup() { git -C /repo worktree remove --force "$base/repo" 2>/dev/null; rm -r
 trap cleanup EXIT
 if ! git -C "$base/repo" apply "$patch"; then echo "patch does not apply"; exit 2; fi
 mkdir -p "$base/verif"
-(cd /verif && tar cf - go.mod go.sum run mc oracle libdefaults checks overlay known_findings.json) | tar xf - -C "$base/verif"
+(cd /verif && tar cf - go.mod go.sum run mc oracle libdefaults firstuse checks overlay known_findings.json tools/ovgen tools/build_check.sh) | tar xf - -C "$base/verif"
 sed -i "s#=> /repo#=> $base/repo#" "$base/verif/go.mod"
 cd "$base/verif"
 for id in "$@"; do
